@@ -110,6 +110,8 @@ template<class AA, class BB, class A2D, class C2D, class = typename A2D::element
 auto herk(filling c_side, AA alpha, A2D const& a, BB beta, C2D&& c) -> C2D&& {  // NOLINT(readability-function-cognitive-complexity,readability-identifier-length) 74, BLAS naming
 	assert( a.size() == c.size() ); // NOLINT(cppcoreguidelines-pro-bounds-array-to-pointer-decay,hicpp-no-array-decay)
 	assert( c.size() == c.rotated().size() ); // NOLINT(cppcoreguidelines-pro-bounds-array-to-pointer-decay,hicpp-no-array-decay)
+	assert( stride(a) == 1 || a.rotated().stride() == 1 );  // BLAS cannot express a matrix without a unit stride  // NOLINT(cppcoreguidelines-pro-bounds-array-to-pointer-decay,hicpp-no-array-decay)
+	assert( c.stride() == 1 || c.rotated().stride() == 1 );  // NOLINT(cppcoreguidelines-pro-bounds-array-to-pointer-decay,hicpp-no-array-decay)
 	if(c.is_empty()) {return std::forward<C2D>(c);}
 	if constexpr(is_conjugated<C2D>{}) {
 		herk(flip(c_side), alpha, a, beta, hermitized(c));
